@@ -17,7 +17,7 @@ type Case struct {
 	Resps     []nm.Response `json:"resps"`
 	Note      string        `json:"note,omitempty"`
 
-	Err       int            `json:"err"` // 0 none, 1 conflict, 2 self-update, 3 other
+	Err       int            `json:"err"` // 0 none, 1 conflict, 2 self-update, 3 other error, 4 panic
 	ErrText   string         `json:"err_text,omitempty"`
 	Views     []View         `json:"views"`
 	Reply     *nm.Adjust     `json:"reply,omitempty"`
@@ -25,6 +25,7 @@ type Case struct {
 	Combined  *SpecObs       `json:"spec_combined,omitempty"`
 	Sequent   *SpecObs       `json:"spec_sequential,omitempty"`
 	Signature map[string]any `json:"signature,omitempty"`
+	Crashed   bool           `json:"crashed,omitempty"`
 }
 
 // View is what one plugin was shown.
@@ -277,6 +278,9 @@ func (p *planner) collide(kind Item, i, j int, variant int, via string) (Item, s
 	if variant == 4 && j-i < 2 {
 		variant = 0
 	}
+	if variant == 5 && (it.Kind == "args") {
+		variant = 0
+	}
 	note := fmt.Sprintf("collide %s via %q i=%d j=%d variant=%d", it, via, i, j, variant)
 	if via != "" {
 		if p.inOwnUpdates(j, via, it) {
@@ -300,6 +304,9 @@ func (p *planner) collide(kind Item, i, j int, variant int, via string) (Item, s
 		}
 		p.act(k, it, OpRemove)
 		p.act(j, it, OpSet)
+	case 5:
+		// the later plugin marks ANOTHER item for removal (the one called "-"+key) and sets key: no release
+		p.act(j, it, OpOtherMarkSet)
 	case 4:
 		// a plugin in between takes the item over (remove-then-set); the later plain set collides with IT
 		k := i + 1 + g.r.Intn(j-i-1)
